@@ -1005,6 +1005,46 @@ def _(e):
     return "tucker_als", ttb.tucker_als, (X, 2), {"printitn": 0, "maxiters": 1, "dimorder": [0, 0, 1]}, X, {}
 
 
+def _order_rows():
+    # every way a mode order can fail to be a permutation of the modes, for every algorithm that takes one, as list and as array
+    kinds = {
+        "repeat-within-N": lambda N, rng: [0] + list(range(N - 1)),
+        "too-short": lambda N, rng: list(range(N - 1)),
+        "longer-with-every-mode": lambda N, rng: list(range(N)) + [int(rng.integers(0, N))],
+        "twice-every-mode": lambda N, rng: list(range(N)) * 2,
+        "out-of-range": lambda N, rng: list(range(N - 1)) + [N],
+        "negative-entry": lambda N, rng: [-1] + list(range(1, N)),
+        "empty": lambda N, rng: [],
+    }
+    algs = {"cp_als": lambda X: (ttb.cp_als, (X, 2), {"printitn": 0, "maxiters": 2}),
+            "tucker_als": lambda X: (ttb.tucker_als, (X, 2), {"printitn": 0, "maxiters": 1}),
+            "hosvd": lambda X: (ttb.hosvd, (X, 0.1), {"verbosity": 0})}
+    for alg, mk in algs.items():
+        for kname, kf in kinds.items():
+            def make(e, mk=mk, kf=kf, alg=alg):
+                X = _adata(e)
+                fn, args, kw = mk(X)
+                order = kf(e.N, e.rng)
+                kw = dict(kw, dimorder=(order if e.rng.random() < 0.5 else np.array(order, dtype=int)))
+                return alg, fn, args, kw, X, {}
+            ROWS[f"{alg}:dimorder-{kname}"] = {"make": make, "orders": (3,)}
+
+    # a starting guess whose factor for one mode has the wrong number of rows or of columns -- for every mode, under every mode order
+    for m_ in range(3):
+        for what_ in (0, 1):
+            def guess_row(e, m=m_, what=what_):
+                X = _adata(e)
+                init = [gen.normals(e.rng, (s_, 2)) for s_ in e.shape]
+                init[m] = gen.normals(e.rng, (e.shape[m] + 1, 2) if what == 0 else (e.shape[m], 3))
+                order = [int(x) for x in e.rng.permutation(e.N)]
+                return "tucker_als", ttb.tucker_als, (X, 2), {"printitn": 0, "maxiters": 1, "init": init, "dimorder": order}, X, \
+                    {"bad_mode_first_in_order": order[0] == m, "what": ["rows", "columns"][what], "bad_mode": m}
+            ROWS[f"tucker_als:guess-factor-of-mode-{m_}-wrong-{['rows', 'columns'][what_]}(any order)"] = {"make": guess_row, "orders": (3,)}
+
+
+_order_rows()
+
+
 @row("tucker_als:negative-maxiters", (3,))
 def _(e):
     X = _adata(e)
